@@ -62,8 +62,10 @@ def rule_reject_sound(ctx):
     for call in pm["calls"]:
         if call["path"] == "std::str::FromStr::from_str":
             atoms = [models.canon_atom(a) for a in call["atoms"]]
-            ok = ("pred", "is_valid_package_type", (faults.TYPE,), True) in atoms
-            ctx.ob("REJECT-SOUND", "valid_type(TYPE) dominates T::from_str(TYPE)", ok and models._region(call["args"][0]) == faults.TYPE, fn=pm["key"], site=call["site"], detail="; ".join(show_canon(a) for a in atoms)[:300])
+            areg = models._region(call["args"][0])
+            ok = ("pred", "is_valid_package_type", (areg,), True) in atoms
+            # which occurrence of a separator delimits the type is C02's business: compare modulo split direction
+            ctx.ob("REJECT-SOUND", "valid_type(TYPE) dominates T::from_str(TYPE)", ok and faults.loosen(areg) == faults.loosen(faults.TYPE), fn=pm["key"], site=call["site"], detail="; ".join(show_canon(a) for a in atoms)[:300])
 
 
 def rule_typed(ctx):
@@ -135,7 +137,14 @@ def rule_nolossy(ctx):
     ctx.ob("NO-LOSSY", "no lossy/unchecked UTF-8 API among all call sites", not bad, detail="%d call sites inspected" % n)
 
 
+def rule_controls(ctx):
+    from . import controls
+    if ctx.tier == 'thorough':
+        controls.control_lossy(ctx)
+
+
 RULES = [
+    ("CONTROL", rule_controls, 0),
     ("REJECT-SOUND", rule_reject_sound, 30),
     ("TYPED", rule_typed, 2),
     ("NO-LOSSY", rule_nolossy, 1),
